@@ -119,7 +119,7 @@ fn main() {
     let t0 = std::time::Instant::now();
     // bumpmc's own count
     let model = ArenaModel { profile, thorough: false, min_aligns: mas.clone(), max_depth: depth };
-    let p = mc::Params { max_depth: depth, max_devs: 0, threads: 8, budget_s: 600.0, prop_mask: u32::MAX, slab_bytes: 8 << 20, emergency_out: None, max_violations: 10, skip: Default::default(), max_states_per_level: usize::MAX, keep_keys: true };
+    let p = mc::Params { max_depth: depth, max_devs: 0, threads: 8, budget_s: 600.0, max_rss_bytes: 20 << 30, prop_mask: u32::MAX, slab_bytes: 8 << 20, emergency_out: None, max_violations: 10, skip: Default::default(), max_states_per_level: usize::MAX, keep_keys: true };
     let rep = mc::explore(&model, &p);
     // stateright's count
     let x = X { m: ArenaModel { profile, thorough: false, min_aligns: mas, max_depth: depth }, depth };
